@@ -8,7 +8,7 @@ from vlib.framework import Corr
 from harness import layoutlib as L
 
 META = {
-    "drivers": ["convcheck"],
+    "drivers": ["convcheck", "impcheck"],
     "rule": "case = (op, N, storage scalar, M, coordinate scalar, build config, source layout, target layout, extents[, interpolators, "
             "translation]); non-trivial when the box has >= 2 cells and source and target layouts differ",
     "trusted_base": ["_pdep_u64 behaves as the bit-scan `pdep` of the model (hardware; exercised in the bmi2 build, not proved)",
@@ -355,8 +355,21 @@ def evaluate(ctx, variants, cases, full=False):
 
 
 def run(ctx):
-    variants, cases = gen(ctx)
+    # the tie through translation (DESIGN.md §11.6): the positions the three conversions write to — the index loop inside
+    # make_strided_copy, and calculate_index of the Morton / Hilbert layers — as written are the terms the theorems
+    # `Covfie.Imp.*_translated` are about; if one of them changed, this run takes the thorough tier's boxes
+    from harness import translib as T
+    tie = T.Tie(ctx, ["strided_copy_index", "morton_index", "morton_index_bmi2_off", "hilbert_index"])
+    if tie.changed() and ctx.quick:
+        class Deep:
+            quick, seed, tier, work, replay, prop = False, ctx.seed, ctx.tier, ctx.work, ctx.replay, ctx.prop
+        variants, cases = gen(Deep)
+    else:
+        variants, cases = gen(ctx)
     corr = evaluate(ctx, variants, cases)
+    tie.merge(corr)
+    if tie.changed() and ctx.quick:
+        corr.info["deepened"] = True
     corr.info["harness_variants"] = [variant_name(v) + "/" + cfg for v, cfg in variants]
     if ctx.quick:
         corr.notes.append("CUDA host shim sub-check runs in the thorough tier only")
